@@ -13,7 +13,7 @@ R-C19-4  (syntax) the quoted line is the reported line: the renderer splits the 
          splits on; the caret column is `pos - 1` spaces.
 """
 import re
-from .common import walk, src, strip, AnchorError, Scopes, load_table, format_args_of
+from .common import walk, src, strip, AnchorError, Scopes, load_table, format_args_of, text_as_is, TEXT_TRANSFORMS
 from .c11 import parents_map
 from . import c03
 
@@ -85,6 +85,41 @@ def run(chk, facts):
                    f"`{root}` (one element per input file) is zipped with `source`" if ok else
                    f"`{root}` holds only the failing files but is zipped with `source`, which holds every file: the i-th error gets the text and path of the i-th project file", loc)
     chk.floor("R-C19-1", nz, 2, "zips with the per-file source list")
+    # the text that is attached is the text that was parsed: positions are counted in the parsed text, the quoted line is
+    # looked up in the attached one.  (a) with_source gets `Some(<the binding that was parsed>)`, (b) nothing textual is
+    # applied to that binding in mamba_to_python, (c) AST::from_str hands its input to the lexer as it is, and the lexer
+    # iterates it as it is (shared with R-C18-5)
+    text_names = set()
+    parsed = [strip(n["recv"]) for n in walk(m2["body"]) if n.get("k") == "mcall" and n["m"] == "parse"]
+    attached = []
+    for n in walk(m2["body"]):
+        if n.get("k") == "mcall" and n["m"] == "with_source" and n["args"]:
+            a0 = strip(n["args"][0])
+            inner = strip(a0["args"][0]) if a0.get("k") == "call" and src(a0["f"]) == "Some" and a0["args"] else a0
+            attached.append(inner)
+    okp = len(parsed) == 1 and parsed[0].get("k") == "path"
+    chk.ob("R-C19-1", "same-text:parsed", okp, f"the text is parsed as it is (`{src(parsed[0])}.parse()`)" if okp else
+           f"what is parsed is not the file's text itself (`{[src(x, -30)[:40] for x in parsed]}`): every position is counted in a text other than the one the quoted lines are taken from", loc)
+    oka = bool(attached) and all(a.get("k") == "path" for a in attached) and (not okp or parsed[0]["p"] in {a["p"] for a in attached if a.get("k") == "path"})
+    chk.ob("R-C19-1", "same-text:attached", oka, f"with_source attaches the same binding ({sorted({src(a) for a in attached})})" if oka else
+           f"with_source attaches `{sorted({src(a, -30)[:40] for a in attached})}`, not the text that was parsed / checked", loc)
+    text_names = {a["p"] for a in attached if a.get("k") == "path"} | ({parsed[0]["p"]} if okp else set())
+    tr = [src(n, -30)[:50] for n in walk(m2["body"]) if n.get("k") == "mcall" and n["m"] in TEXT_TRANSFORMS and strip(n["recv"]).get("k") == "path" and strip(n["recv"])["p"] in text_names]
+    rb = [src(n, -30)[:50] for n in walk(m2["body"]) if n.get("k") == "local" and n.get("init") is not None and
+          [p_["name"] for p_ in walk(n["pat"]) if p_.get("k") == "pident"] in [[t] for t in text_names] and src(strip(n["init"])) not in text_names]
+    chk.ob("R-C19-1", "same-text:untransformed", not tr and not rb, "nothing textual is applied to the file's text in mamba_to_python" if not tr and not rb else
+           f"the file's text is transformed ({tr + rb}) between reading and attaching", loc)
+    try:
+        fs = [f for f in syn.fns if f["name"] == "from_str" and f["mod"] == "parse" and "AST" in (f.get("impl_of") or "")]
+        if len(fs) != 1:
+            raise AnchorError(f"expected one AST::from_str, found {len(fs)}")
+        pin = fs[0]["sig"]["inputs"][0]["pat"].get("name", "input")
+        reached_, bad_ = text_as_is(syn, fs[0], pin)
+        okf = not bad_ and len(reached_) == 1
+        chk.ob("R-C19-1", "same-text:from_str->lexer", okf, f"AST::from_str lexes its input as it is ({reached_[0]})" if okf else
+               f"AST::from_str does not lex its input as it is ({'; '.join(bad_) if bad_ else f'chars() reached {len(reached_)} times'})", facts.loc_of(fs[0]))
+    except AnchorError as e:
+        chk.anchor_fail("R-C19-1", e)
     # MIR cross-check per error type
     disp = {t: 0 for t in ERR_TYPES}
     wsrc = {t: 0 for t in ERR_TYPES}
@@ -156,43 +191,79 @@ def run(chk, facts):
     try:
         fl = syn.one_fn("format_location", mod="common::result")
         locf = facts.loc_of(fl)
-        body_s = src(fl["body"]).replace(" ", "")
+        body_s = src(fl["body"], -30).replace(" ", "")
         uses_lines = ".lines()" in body_s
-        idx = re.findall(r"\.nth\(([a-z_]+)\)", body_s)
-        lp = [n for n in walk(fl["body"]) if n.get("k") == "local" and [p["name"] for p in walk(n["pat"]) if p.get("k") == "pident"] == ["line_pos"]]
-        lp_ok = len(lp) == 1 and "pos.start.lineasi32)-1" in src(lp[0]["init"]).replace(" ", "")
-        ok = uses_lines and "line_pos" in idx and lp_ok
-        chk.ob("R-C19-4", "renderer:lines+nth(line-1)", ok, "the renderer quotes `source.lines().nth(line - 1)`" if ok else
-               f"the renderer no longer quotes lines().nth(line - 1) (lines={uses_lines}, nth over {idx}, line_pos ok={lp_ok}): the quoted line is not the reported one", locf)
-        caret = "pos.start.pos)-1" in body_s or "pos.start.pos-1" in body_s
-        chk.ob("R-C19-4", "renderer:caret-col=pos-1", caret, "the caret is indented by `pos - 1` columns" if caret else "the caret indentation is no longer `pos - 1`", locf)
-        # the label of the quoted line is the reported line number
-        # each quoted line: 0-based index handed to nth() must be (1-based label) - 1, both relative to pos.start.line
+        # the caret column: evaluated for pos = 1..4, offset = 0 (the indentation added to the fixed gutter is pos - 1)
         lets = {}
         for n in walk(fl["body"]):
             if n.get("k") == "local" and n.get("init") is not None and n["pat"].get("k") in ("pident", "ptype"):
                 nm = [p["name"] for p in walk(n["pat"]) if p.get("k") == "pident"]
                 if len(nm) == 1:
                     lets[nm[0]] = n["init"]
+        carets = []
+        for n in walk(fl["body"]):   # vec![b' '; n] (expanded: from_elem(b' ', n)), [b' '; n], " ".repeat(n)
+            ln = None
+            if n.get("k") == "repeat":
+                ln = n["len"]
+            elif n.get("k") == "call" and src(n["f"]).endswith("from_elem") and len(n["args"]) == 2:
+                ln = n["args"][1]
+            elif n.get("k") == "mcall" and n["m"] == "repeat" and len(n["args"]) == 1:
+                ln = n["args"][0]
+            if ln is not None and "pos.start.pos" in src(ln, -30):
+                carets.append({"len": ln})
+        caret = False
+        cdesc = "no `[b' '; ..pos.start.pos..]` run of blanks before the carets"
+        if len(carets) == 1:
+            try:
+                vals = [_ieval(carets[0]["len"], lets, {"pos.start.pos": c, "pos.start.line": 3, "offset": 0}) for c in (1, 2, 3, 7)]
+                caret = vals == [0, 1, 2, 6]
+                cdesc = f"columns 1, 2, 3, 7 are indented by {vals}"
+            except _NoEval as ex:
+                cdesc = f"the indentation `{src(carets[0]['len'], -30)}` could not be evaluated ({ex})"
+        chk.ob("R-C19-4", "renderer:caret-col=pos-1", caret, "the caret is indented by `pos - 1` columns" if caret else f"the caret indentation is no longer `pos - 1`: {cdesc}", locf)
+        # every quoted line: the 0-based index handed to nth() and the 1-based label printed next to the text are evaluated
+        # for every reported line 1..6 (positions are 1-based, obligation caret:start below): the index is either out of
+        # reach (>= 2^31: the line is never shown) or label - 1, and a label is never smaller than 1
         quoted = 0
+        main_line = False
         for n in walk(fl["body"]):
-            if n.get("k") == "mcall" and n["m"] == "map_or" and strip(n["recv"]).get("k") == "mcall" and strip(n["recv"])["m"] == "nth":
-                idx_e = strip(strip(n["recv"])["args"][0])
-                idx = _affine(lets.get(src(idx_e), idx_e) if idx_e.get("k") == "path" else idx_e)
-                labels = []
-                for m in walk(n["args"][1]):
+            if n.get("k") == "mcall" and n["m"] in ("map_or", "map", "map_or_else", "and_then") and strip(n["recv"]).get("k") == "mcall" and strip(n["recv"])["m"] == "nth":
+                if ".lines()" not in src(strip(n["recv"])["recv"], -30).replace(" ", "") and "lines" not in src(strip(n["recv"])["recv"], -30):
+                    continue
+                idx_e = strip(n["recv"])["args"][0]
+                label_es = []
+                for m in walk(n["args"][-1]):
                     if m.get("k") == "macro" and m.get("name", "").endswith("format_args") and "args" in m:
                         for a in m["args"][1:]:
-                            if "pos." in src(a):
-                                labels.append(_affine(a))
+                            if "pos." in src(a, -30):
+                                label_es.append(a)
                 quoted += 1
-                if idx == "never":
-                    chk.ob("R-C19-4", f"quoted-line{quoted}", True, f"quoted line {quoted}: never shown (index usize::MAX)", locf)
-                    continue
-                ok = isinstance(idx, int) and len(labels) == 1 and isinstance(labels[0], int) and labels[0] == idx + 1
-                chk.ob("R-C19-4", f"quoted-line{quoted}", ok,
-                       f"quoted line {quoted}: text of line start{idx + 1:+d} is labelled start{labels[0]:+d}" if ok else
-                       f"quoted line {quoted}: nth({src(idx_e)}) = {idx}, label {labels}: the text that is printed is not the line whose number is printed next to it", locf)
+                bad = []
+                shown = []
+                try:
+                    for L in range(1, 7):
+                        env = {"pos.start.line": L, "pos.start.pos": 1, "offset": 0}
+                        i = _ieval(idx_e, lets, env)
+                        if i >= 2 ** 31:
+                            continue
+                        shown.append(L)
+                        if len(label_es) != 1:
+                            bad.append(f"line {L}: {len(label_es)} labels")
+                            continue
+                        lab = _ieval(label_es[0], lets, env)
+                        if lab != i + 1 or lab < 1:
+                            bad.append(f"reported line {L}: the text of line {i + 1} is labelled {lab}")
+                    if shown and all(_ieval(idx_e, lets, {"pos.start.line": L, "pos.start.pos": 1, "offset": 0}) == L - 1 for L in range(1, 7)):
+                        main_line = True
+                except _NoEval as ex:
+                    bad.append(f"`{src(idx_e, -30)}` / its label could not be evaluated ({ex})")
+                chk.ob("R-C19-4", f"quoted-line{quoted}", not bad,
+                       (f"quoted line {quoted}: for reported lines 1..6 the printed label is always the number of the printed line" if shown else
+                        f"quoted line {quoted}: never shown (index out of reach for every line)") if not bad else
+                       f"quoted line {quoted}: nth({src(idx_e, -30)}): " + "; ".join(bad[:3]) + ": the text that is printed is not the line whose number is printed next to it", locf)
+        ok = uses_lines and main_line
+        chk.ob("R-C19-4", "renderer:lines+nth(line-1)", ok, "the renderer quotes `source.lines().nth(line - 1)` for every reported line" if ok else
+               f"the renderer no longer quotes lines().nth(line - 1) (lines={uses_lines}, a quoted line with index line-1 for all lines={main_line}): the quoted line is not the reported one", locf)
         chk.floor("R-C19-4", quoted, 3, "quoted source lines in format_location")
     except AnchorError as e:
         chk.anchor_fail("R-C19-4", e)
@@ -224,35 +295,87 @@ def run(chk, facts):
     except AnchorError as e:
         chk.anchor_fail("R-C19-4", e)
     # the line a diagnostic names is the line the lexer counted: the two places where a token moves the caret to another line are
-    # part of this property too (shared with R-C18-2: a string moves the line by lines().count().saturating_sub(1))
+    # part of this property too (shared with R-C18-2 / R-C18-5: a token that spans lines ends on line + number of line breaks; interpolation offsets and nested errors)
     from . import c18
     n0 = len(chk.obligations)
     rules0 = dict(chk.rules)
     counts0 = dict(chk.counts)
     c18.run(chk, facts)
-    keep = [o for o in chk.obligations[n0:] if o["key"] in ("R-C18-2|State::token:lines", "R-C18-2|Lex::new:end=start+width", "R-C18-2|State::newline")]
+    keep = [o for o in chk.obligations[n0:] if o["key"] in ("R-C18-2|Token::end:line-breaks", "R-C18-2|Token::end:no-break", "R-C18-2|State::token:advance", "R-C18-2|Lex::new:end=token.end(start)", "R-C18-2|State::newline",
+                                                             "R-C18-5|offset-recorded", "R-C18-5|error-offset-applied", "R-C18-2|anchor", "R-C18-5|anchor")]
     chk.obligations = chk.obligations[:n0] + keep
     chk.rules = rules0
-    chk.rules["R-C18-2"] = "line bookkeeping of the lexer (shared with C18): strings move the line by lines().count().saturating_sub(1); a newline moves to the next line, column 1"
+    chk.rules["R-C18-2"] = "line bookkeeping of the lexer (shared with C18): a token ends on line + number of its line breaks; a newline moves to the next line, column 1; interpolated text and its lexical errors are shifted by the recorded offset"
     chk.counts.clear()
     chk.counts.update(counts0)
-    chk.counts["R-C18-2"] = len(keep)
+    chk.counts["R-C18-2"] = len([o for o in keep if o["key"].startswith("R-C18-2")])
+    chk.rules["R-C18-5"] = "interpolated text and the lexical errors inside it are shifted by the recorded offset, which is the position behind the opening brace (shared with C18)"
+    chk.counts["R-C18-5"] = len([o for o in keep if o["key"].startswith("R-C18-5")])
     chk.notes = [n_ for n_ in chk.notes if not n_.startswith("C18")]
     chk.notes.append("C19: provenance of every rendered error; non-emptiness of every Err(vector); renderer obligations shared with the C03 census.")
 
 
-def _affine(e):
-    """`pos.start.line (as i32) +/- K` (optionally inside max(.., usize::MAX as i32) as usize) -> K ; 'never' ; 'unknown'"""
-    t = src(strip(e)).replace(" ", "").replace("(", "").replace(")", "").replace("asi32", "").replace("asusize", "")
-    if t in ("maxpos.start.line,usize::MAX",):
-        return "never"
-    m = re.fullmatch(r"max(pos\.start\.line(?:[-+]\d+)?),usize::MAX", t)
-    if m:
-        t = m.group(1)
-    m = re.fullmatch(r"pos\.start\.line(?:([-+])(\d+))?", t)
-    if m:
-        return 0 if m.group(1) is None else (int(m.group(2)) if m.group(1) == "+" else -int(m.group(2)))
-    return "unknown"
+class _NoEval(Exception):
+    pass
+
+
+def _ieval(e, lets, env, depth=0):
+    """integer value of a small arithmetic expression (casts wrap like Rust's `as`); env: values of the free places"""
+    if depth > 20:
+        raise _NoEval("too deep")
+    e = strip(e)
+    k = e.get("k")
+    t = src(e, -30).replace(" ", "")
+    if t in env:
+        return env[t]
+    if k == "lit" and e["t"] == "int":
+        return int(str(e["v"]).rstrip("iusze_0123456789") or 0) if not str(e["v"])[0].isdigit() else int(re.match(r"\d+", str(e["v"]).replace("_", "")).group(0))
+    if k == "path":
+        if e["p"] in ("usize::MAX", "u64::MAX", "std::usize::MAX"):
+            return 2 ** 64 - 1
+        if e["p"] in ("i32::MAX",):
+            return 2 ** 31 - 1
+        if e["p"] == "OFFSET_WIDTH":
+            return 4
+        if e["p"] in lets:
+            return _ieval(lets[e["p"]], lets, env, depth + 1)
+        raise _NoEval(f"free name {e['p']}")
+    if k == "cast":
+        v = _ieval(e["e"], lets, env, depth + 1)
+        ty = e["ty"].replace(" ", "")
+        if ty in ("usize", "u64"):
+            return v % 2 ** 64
+        if ty == "i32":
+            v %= 2 ** 32
+            return v - 2 ** 32 if v >= 2 ** 31 else v
+        if ty in ("i64", "isize"):
+            v %= 2 ** 64
+            return v - 2 ** 64 if v >= 2 ** 63 else v
+        if ty == "u32":
+            return v % 2 ** 32
+        raise _NoEval(f"cast to {ty}")
+    if k == "binary" and e["op"] in ("+", "-", "*"):
+        l, r = _ieval(e["l"], lets, env, depth + 1), _ieval(e["r"], lets, env, depth + 1)
+        return l + r if e["op"] == "+" else (l - r if e["op"] == "-" else l * r)
+    if k == "call" and src(e["f"]).split("::")[-1] in ("max", "min") and len(e["args"]) == 2:
+        a, b = (_ieval(x, lets, env, depth + 1) for x in e["args"])
+        return max(a, b) if src(e["f"]).endswith("max") else min(a, b)
+    if k == "mcall" and len(e["args"]) == 1 and e["m"] in ("saturating_sub", "saturating_add", "max", "min", "wrapping_sub"):
+        a, b = _ieval(e["recv"], lets, env, depth + 1), _ieval(e["args"][0], lets, env, depth + 1)
+        return {"saturating_sub": max(a - b, 0), "saturating_add": a + b, "max": max(a, b), "min": min(a, b), "wrapping_sub": (a - b) % 2 ** 64}[e["m"]]
+    if k == "if" and e.get("else") is not None:
+        c = strip(e["c"])
+        if c.get("k") == "binary" and c["op"] in ("<", "<=", ">", ">=", "==", "!="):
+            l, r = _ieval(c["l"], lets, env, depth + 1), _ieval(c["r"], lets, env, depth + 1)
+            t_ = {"<": l < r, "<=": l <= r, ">": l > r, ">=": l >= r, "==": l == r, "!=": l != r}[c["op"]]
+            br = e["then"] if t_ else e["else"]
+            br = strip(br)
+            if br.get("k") == "block" and len(br["stmts"]) == 1:
+                br = br["stmts"][0]
+            return _ieval(br, lets, env, depth + 1)
+    if k == "block" and len(e["stmts"]) == 1:
+        return _ieval(e["stmts"][0], lets, env, depth + 1)
+    raise _NoEval(f"`{src(e, -30)[:50]}`")
 
 
 def _trace_binding(sc, pm, b, depth):
